@@ -458,6 +458,8 @@ theorem C03_on_tree : Facts.truncateComparesWithFollowerTermEntry = true ∧ Fac
     Facts.lateRequestCannotConvertLeader = true ∧ Facts.snapshotChunkTermMustEqual = true ∧
     Facts.walReaderServesOnlySyncedEntries = true ∧ Facts.walSyncCallbacksOnlyForFlushedEntries = true ∧
     -- an entry counts as appended (and a re-delivery of it as a duplicate) only after the WAL has taken it
-    Facts.followerCountsEntryAfterWalAppend = true := by decide
+    Facts.followerCountsEntryAfterWalAppend = true ∧
+    -- a re-delivered entry is acknowledged only once it is synced
+    Facts.followerAcksDuplicateOnlyWhenSynced = true := by decide
 
 end Oxia.C03
